@@ -2,8 +2,8 @@
 package core
 
 import (
-	"bytes"
 	"bufio"
+	"bytes"
 	"encoding/hex"
 	"encoding/json"
 	"fmt"
@@ -111,8 +111,8 @@ func (a Arg) I64() int64 {
 	}
 	return a.Num.Int64()
 }
-func (a Arg) Int() int   { return int(a.I64()) }
-func (a Arg) Bool() bool { return a.Num != nil && a.Num.Sign() != 0 }
+func (a Arg) Int() int    { return int(a.I64()) }
+func (a Arg) Bool() bool  { return a.Num != nil && a.Num.Sign() != 0 }
 func (a Arg) IsNil() bool { return a.Kind == '-' }
 
 // Bytes returns the byte string (nil for a nil arg; non-nil empty slice for "b").
@@ -285,7 +285,7 @@ func ReadHistories(path string) ([]*History, error) {
 type Fail struct {
 	Property string `json:"property"`
 	History  string `json:"history"`
-	Step     int    `json:"step"` // index of the op (0-based); -1 = whole history
+	Step     int    `json:"step"`     // index of the op (0-based); -1 = whole history
 	ObsStep  int    `json:"obs_step"` // index of the op's line in the observation files (shifted by inserted ops)
 	Msg      string `json:"msg"`
 }
@@ -341,7 +341,9 @@ func (r *Result) Insert(after int, op Op, obsToks ...string) {
 }
 
 // AddObs appends an observation line built from labelled tokens.
-func (r *Result) AddObs(toks ...string) { r.Obs = append(r.Obs, strings.TrimSpace("r "+strings.Join(toks, " "))) }
+func (r *Result) AddObs(toks ...string) {
+	r.Obs = append(r.Obs, strings.TrimSpace("r "+strings.Join(toks, " ")))
+}
 
 // Hit records an interesting situation (deduplicated per history by the caller of Stats).
 func (r *Result) Hit(s string) { r.Situations = append(r.Situations, s) }
